@@ -102,6 +102,54 @@ def gen_case(rng, quiet):
     return {"prog": prog, "cap": cap, "sched": sched, "kind": ("quiet" if quiet else "busy") + ("" if completed else "-incomplete")}
 
 
+def exhaustive_cases(maxlen):
+    """every macro schedule up to maxlen over {input, poll c0, poll c1, initiate, try_complete} on the 2-context pipeline
+    (capacity 2), then polls until all acks, try_complete, crash, restore, replay, polls to quiescence"""
+    out = []
+    for seq in X.all_sequences(["in", "p0", "p1", "init", "complete"], maxlen):
+        if "init" not in seq:
+            continue
+        sim = X.Sim(WPROG, 2)
+        sched, accepted = [], []
+        evs = [("E0", 1, 5), ("E0", 2, 5), ("E0", 3, 5)]
+        ok = True
+        for a in seq:
+            if a == "in":
+                if not evs or not sim.can_ingress(evs[0]):
+                    ok = False
+                    break
+                st = ("in", evs.pop(0))
+                accepted.append(st[1])
+            elif a in ("init", "complete"):
+                st = (a,)
+            else:
+                st = ("poll", int(a[1]))
+            sched.append(st)
+            sim.step(st)
+        if not ok:
+            continue
+        for _ in range(6):
+            if sim.pending is None or len(sim.ackq) + len(sim.pending["acks"]) >= sim.n:
+                break
+            for c in (1, 0):
+                sched.append(("poll", c))
+                sim.step(("poll", c))
+        sched.append(("complete",))
+        sim.step(("complete",))
+        sched.append(("restore",))
+        sim.step(("restore",))
+        for e in unconsumed_inputs(sim, accepted):
+            while not sim.can_ingress(e):
+                for c in (1, 0):
+                    sched.append(("poll", c))
+                    sim.step(("poll", c))
+            sched.append(("in", e))
+            sim.step(("in", e))
+        X.finish_rounds(sim, sched)
+        out.append({"prog": WPROG, "cap": 2, "sched": sched, "kind": "exhaustive"})
+    return out
+
+
 def classify(case):
     """Known-finding class of the INPUT: a checkpoint whose barriers were injected while a message or an engine output was
     waiting somewhere, or during which an input was dispatched (simulator replay of the schedule)."""
@@ -233,7 +281,7 @@ def run_orch_cp(run, binpath, rng):
     refs2 = X.run_ref(binpath, [(c["prog"], c["events2"]) for c in ocs])
     reqs = [{"mode": "orch_cp", "vpl": X.vpl(c["prog"]), "contexts": [X.ctxname(k) for k in range(c["prog"]["n"])], "cap": c["cap"],
              "events": [list(e) for e in c["events"]], "events2": [list(e) for e in c["events2"]],
-             "expect": sum(len(p) for p in r1["out"]), "expect2": sum(len(p) for p in r2["out"]), "timeout_ms": 20000, "grace_ms": 100}
+             "expect": sum(len(p) for p in r1["out"]), "expect2": sum(len(p) for p in r2["out"]), "timeout_ms": 45000, "grace_ms": 150}
             for c, r1, r2 in zip(ocs, refs1, refs2)]
     with X.Phase(run, "threaded orchestrator runs"):
         answers = harness.run_jsonl(binpath, reqs, timeout=2400)
@@ -262,7 +310,7 @@ def check(run):
         return
     rng = run.rng
     n = 110 if run.tier == "quick" else 4000
-    cases = [WITNESS] + [gen_case(rng, quiet=(i % 3 == 0)) for i in range(n)]
+    cases = [WITNESS] + [gen_case(rng, quiet=(i % 3 == 0)) for i in range(n)] + exhaustive_cases(2 if run.tier == "quick" else 5)
     with X.Phase(run, "implementation runs (poll by poll)"):
         answers = X.run_direct(binpath, cases)
     with X.Phase(run, "model runs (vm_compute)"):
@@ -337,7 +385,7 @@ def replay(run, path):
         r1, r2 = X.run_ref(binpath, [(c["prog"], c["events"]), (c["prog"], c["events2"])])
         a = harness.run_jsonl(binpath, [{"mode": "orch_cp", "vpl": X.vpl(c["prog"]), "contexts": [X.ctxname(k) for k in range(c["prog"]["n"])], "cap": c["cap"],
                                          "events": [list(e) for e in c["events"]], "events2": [list(e) for e in c["events2"]],
-                                         "expect": sum(len(p) for p in r1["out"]), "expect2": sum(len(p) for p in r2["out"]), "timeout_ms": 20000, "grace_ms": 100}])[0]
+                                         "expect": sum(len(p) for p in r1["out"]), "expect2": sum(len(p) for p in r2["out"]), "timeout_ms": 45000, "grace_ms": 150}])[0]
         fails = judge_orch_cp(c, a, r1, r2)
         if fails:
             run.violation("; ".join(fails)[:700], {"orch_cp_case": c, "implementation": a})
